@@ -133,6 +133,16 @@ def v1_inputs(rng, tier, k=None):
         for pat in (c, b"1" + c, c + b"1", b"1" + c + b"2", b"25" + c):
             pool.append(b"PROXY TCP4 " + pat + b".0.0.1 192.168.1.1 80 443\r\n")
             pool.append(b"PROXY TCP4 127.0.0.1 192.168.1." + pat + b" 80 443\r\n")
+    # every separator position with the space replaced by another whitespace / control character
+    # (a delimiter test written as "is whitespace" instead of "is SP" accepts these). No random choices.
+    blanks = [bytes([b]) for b in (0x00, 0x09, 0x0a, 0x0b, 0x0c, 0x1c, 0x1d, 0x1e, 0x1f, 0x7f)] + \
+             [b"\xc2\x85", b"\xc2\xa0", b"\xe1\x9a\x80", b"\xe2\x80\x83", b"\xe2\x80\xa8", b"\xe3\x80\x80"]
+    for f in ([b"PROXY", b"TCP4", b"127.0.0.1", b"192.168.1.1", b"80", b"443"], [b"PROXY", b"TCP6", b"::1", b"2001:db8::2", b"80", b"443"],
+              [b"PROXY", b"UNKNOWN"], [b"PROXY", b"UNKNOWN", b"proxied"], [b"PROXY", b"UNKNOWN", b"a", b"b"]):
+        for i in range(1, len(f)):
+            for w in blanks:
+                pool.append(b" ".join(f[:i]) + w + b" ".join(f[i:]) + b"\r\n")
+                pool.append(b" ".join(f[:i]) + w + b" " + b" ".join(f[i:]) + b"\r\n")
     return pool
 
 
